@@ -33,13 +33,19 @@ int main(int argc, char** argv) {
     }
     if (mode == "pure") {
         // purity: evaluate the position with a fresh scorer, and with scorers that evaluated other positions (and were cleared) before
-        Position a(argv[2]); static PositionScorer fresh; long v0 = fresh.score(a); int bad = 0;
+        int bad = 0;
+        // the counterexample position plus a small battery of ordinary positions (rook/queen endings, back-rank kings, middlegames)
+        const char* targets[] = {argv[2], "6k1/5pp1/7p/8/8/8/5PPP/3R2K1 w - - 0 1", "3r2k1/5ppp/8/8/8/8/5PPP/6K1 b - - 0 1", "r4rk1/ppp2ppp/2n5/3q4/3P4/2N2N2/PP3PPP/R2Q1RK1 w - - 0 1", "8/5pk1/6p1/8/8/1R6/5PPP/6K1 w - - 0 1"};
+        for (const char* tf : targets) {
+        Position a(tf); PositionScorer* freshp = new PositionScorer(); PositionScorer& fresh = *freshp; long v0 = fresh.score(a);
         const char* warm[] = {"6k1/5pp1/7p/8/8/3Q4/5PPP/6K1 w - - 0 1", "r1bqkbnr/pppp1ppp/2n5/4p3/4P3/5N2/PPPP1PPP/RNBQKB1R w KQkq - 2 3", "3q2k1/5ppp/8/8/8/8/5PPP/3Q2K1 b - - 0 1", "8/2p5/3p4/KP5r/1R3p1k/8/4P1P1/8 w - - 0 1"};
-        for (const char* w : warm) { static PositionScorer s; Position o(w); s.score(o); long v = s.score(a); s.clear(); long v2 = s.score(a);
-            if (v != v0 || v2 != v0) { printf("after evaluating \"%s\": %ld (after clear %ld), fresh scorer: %ld\n", w, v, v2, v0); bad = 1; } }
-        std::string mf = mirror_fen(argv[2]); Position b(mf); static PositionScorer sm; long vm = sm.score(b);
+        for (const char* w : warm) { PositionScorer* sp = new PositionScorer(); PositionScorer& s = *sp; Position o(w); s.score(o); long v = s.score(a); s.clear(); long v2 = s.score(a);
+            if (v != v0 || v2 != v0) { printf("%s after evaluating \"%s\": %ld (after clear %ld), fresh scorer: %ld\n", tf, w, v, v2, v0); bad = 1; } delete sp; }
+        std::string mf = mirror_fen(tf); Position b(mf); static PositionScorer sm; long vm = sm.score(b);
         if (vm != v0) { printf("mirror \"%s\": %ld vs %ld\n", mf.c_str(), vm, v0); bad = 1; }
         if (!(v0 > -639960 && v0 < 639960)) { printf("value %ld outside the non-mate range\n", v0); bad = 1; }
+        delete freshp;
+        }
         printf(bad ? "REPRODUCED\n" : "NOT-REPRODUCED\n");
         return bad;
     }
